@@ -7,10 +7,9 @@ COMMON_NOTE = ("Trusted base: Lean 4.33 kernel; axioms propext/Classical.choice/
                "the Rust code is modelled, not verified: the theorem is about the Lean model, the tie is the regenerated tables and the correspondence run. ")
 CLAIMS = {
     "C18": dict(
-        text="Unbounded Lean theorems on an executable model of the lexer (indent_balanced, eof_single for every input text and every nested lexer), "
-             "model tied to the code by regenerated keyword/spelling tables and a token-stream correspondence on vocabulary pairs, random texts, indentation programs, samples and mutants; "
-             "the span-tiling and re-lexing clauses are evaluated by an oracle on the implementation's stream for the same inputs.",
-        note="Proved: balance, single Eof. Oracle+correspondence only (theorem in progress): exact span tiling, canonical re-lexing. Synthetic NL tokens are re-ordered by design; only lexical tokens are claimed ordered.",
+        text="Unbounded Lean theorems on an executable model of the lexer, for every input text and every lexer for interpolated expressions: indent_balanced, eof_single, and spans_exact — the caret ends at the start caret advanced over the whole text, and every token that carries source text (identifiers, keywords, operators, numbers incl. E-notation, strings incl. multi-line / non-ASCII / interpolated, comments) IS a slice of the text: the text splits as pre ++ mid ++ post with the token's text equal to mid, its start the start caret advanced over pre and its end the start caret advanced over pre ++ mid (CRLF one line break). "
+             "The model is tied to the code by regenerated keyword/spelling tables and a token-stream correspondence (kind, text, all four coordinates, nested streams) on vocabulary pairs, random texts, indentation programs, samples and mutants; ordering/disjointness of the spans, the doc-string fold and canonical re-lexing are evaluated by an oracle on the implementation's stream for the same inputs.",
+        note="Proved: balance, single Eof, exact spans of the raw token stream (Lemmas/LexSpan.lean). Oracle+correspondence only: span order and disjointness, spans after the doc-string pass, canonical re-lexing, positions of tokens inside interpolations (re-based copies). Synthetic NL/Indent/Dedent tokens carry no text and are re-ordered by design.",
         technique="Lean 4 proof over lexer model + regenerated tables + differential correspondence",
         design="§5 C18"),
 }
